@@ -24,6 +24,9 @@ EXPLANATION = (
 EXPLANATION += (
     ' ADDED: For anticorrelated / correlated diagonal ids the bound must be exactly n_il + n_xl - 1, resp. -n_xl < id < n_il (polynomial comparison). C14.2: a public method may pass access_padding=True only around values derived from its own checked parameters; a bare padded extent as an argument is a violation. C14.5: a failed bounds guard of the read API raises IndexError.'
 )
+EXPLANATION += (
+    ' C14.1 also: an argument that is re-mapped (p = g(p)) before any bounds check is reported unless g is a sanitiser - later guards bound the mapped value, not the argument. C14.6: the diagonal-length functions, accepted above as real extents, are themselves decided (rule of C02.7).'
+)
 ASSUMPTIONS = [
     'numpy subscripts of exact-length arrays raise IndexError or apply Python negative indexing',
     'parameter and attribute names denote what they say (n_ilines is the inline count); axis tags are seeded from names',
